@@ -45,6 +45,11 @@ CLAIMED = {
         "Static: in every key the 7 triads and sevenths and all 14 function names and numeral aliases (either case, with 7) equal the stacks of thirds inside the oracle key notes; parse_string yields (upper-cased numeral, #sharps - #flats, suffix) for any accidental prefix, tuple_to_string prepends exactly |acc| characters of the right kind for -6..6 and the two are inverse on well-formed numerals; to_chords denotes the right chord for numerals x case x {'', '7'} x prefixes -3..3, rebuilds chord suffixes on the degree's root, maps lists element-wise and answers [] for unknown numerals; every diatonic triad/seventh of a major key gets its function/numeral; each substitution rule keeps its promise and returns well-formed numerals; substitute() leaves the caller's list unchanged.",
         "Quick tier uses 7 of the 30 keys for to_chords and 5 of the 15 major keys for determine (thorough: all). Not decided: substitution recursion beyond depth 2; prefixes beyond +-6. Trusted: CPython ast, abstract evaluator (variants/c08.py), C04/C06/C07 oracles and models.",
         "DESIGN.md section 2, C08"),
+    "C09": (
+        "constant folding of the value tables; evaluation of the value arithmetic over exact rational functions; specialisation of value.determine to all constructible values and interval-domain evaluation on +-1% neighbourhoods; recurrent-set (non-termination) check of the meter loop; evaluation of the meter predicates on the residue/threshold partition",
+        "Static: tables equal 2^k and the exact tuplet multiples; add/subtract are reciprocal duration addition/subtraction and mutually inverse as rational functions, dots/tuplet/triplet/quintuplet/septuplet equal their closed forms; every value built from a base with 0-4 dots or a 3:2/5:4/7:4 ratio is analysed as exactly that class, and every path of determine over the interval [0.99c, 1.01c] around each undotted / single-dotted recognised value c returns c's class; no interval of beat units is a recurrent set of the halving loop, integer units are valid exactly for 1,2,4,...; the four meter predicates match their definitions on counts -3..18 x valid/invalid unit.",
+        "Exact-value checks use the module's own float constructors (float equality as written); not decided: round-trip float equality of add/subtract, tolerance for >= 2 dots. Trusted: CPython ast, abstract evaluator + numeric domains (variants/c09.py), exact rational oracle.",
+        "DESIGN.md section 2, C09"),
     "C06": (
         "offset-domain abstract interpretation of every chord builder (interval constructors summarised by their C02 post-condition) against a meaning-keyed chord-theory oracle; table agreement; abstract evaluation of the shorthand parser on root shapes x keys, aliases, slash, polychord, NC, list and malformed classes",
         "Static: each of the shorthand builders (incl. the lambda) yields, for 7 root letters x arbitrary accidentals, exactly the (letter, semitone) list its meaning prescribes; chord_shorthand and chord_shorthand_meaning have equal key sets; from_shorthand maps every key, every min/mi/-/maj/ma alias spelling, slash basses, polychords, NC and list input to the right builder result and rejects unknown suffixes / bad roots / bad basses with the documented errors.",
